@@ -1,5 +1,6 @@
 SPECIFICATION Spec
 CONSTANT MatchMode = "search"
+CONSTANT PubMode = "all"
 CONSTANT StoreLiteral = FALSE
 INVARIANTS DialedIsChecked CheckedIsPermitted ResolvedOnce PermittedLiteralAccepted MalformedRejected
 CHECK_DEADLOCK FALSE
